@@ -98,6 +98,18 @@ C06_ResumeValue == Clean => "wrongResumeValue" \notin S.bad
 (* ---- C13: the returned command alone decides the next step and its arguments ---------------- *)
 C13_Continuation == Clean => "wrongContinuation" \notin S.bad
 
+\* with no interference but resume: the command returned by the last executed step decides the outcome
+LastStep(s) == LET st == Steps(s) IN IF st = <<>> THEN 0 ELSE st[Len(st)][2]
+C13_Outcome ==
+  (Clean /\ Alphabet \subseteq {"resume"} /\ Quiescent /\ LastStep(S) # 0) =>
+     LET d == Prog(S)[LastStep(S)] IN
+       CASE d.cmd = "stop"   -> S.st = "FINISHED" /\ S.cur.val = d.val /\ S.cur.succ = ~Progs[S.pi].outMissing
+         [] d.cmd = "unsucc" -> S.st = "FINISHED" /\ S.cur.val = d.val /\ ~S.cur.succ
+         [] d.cmd = "kill"   -> S.st = "KILLED" /\ S.cur.val = d.val
+         [] d.cmd = "raise"  -> S.st = "EXCEPTED" /\ S.cur.val = d.val
+         [] d.cmd = "wait"   -> S.st = "WAITING" /\ S.cur.fn = d.next /\ ~S.mon.resumed
+         [] OTHER -> FALSE          \* a step that returned Continue is never the last one at quiescence
+
 \* hide the histories when only the monitors matter (larger K)
 View == <<[S EXCEPT !.log = <<>>], ready, budget>>
 =============================================================================
